@@ -40,6 +40,12 @@ ALLOWED_AXIOMS = {
     'Classical_Prop.classic', 'Eqdep.Eq_rect_eq.eq_rect_eq', 'JMeq.JMeq_eq',
     'ProofIrrelevance.proof_irrelevance',
 }
+# the same axioms as coqchk names them (module path spelled out)
+ALLOWED_AXIOMS_CHK = {
+    'Coq.Reals.ClassicalDedekindReals.sig_forall_dec', 'Coq.Reals.ClassicalDedekindReals.sig_not_dec',
+    'Coq.Logic.FunctionalExtensionality.functional_extensionality_dep', 'Coq.Logic.Classical_Prop.classic',
+    'Coq.Logic.Eqdep.Eq_rect_eq.eq_rect_eq', 'Coq.Logic.JMeq.JMeq_eq', 'Coq.Logic.ProofIrrelevance.proof_irrelevance',
+}
 COMMON_GEN = [('Gen/Unicode.v', 'unicode_tables')]
 
 def log(*a):
@@ -338,6 +344,17 @@ def run_check(pid, tier, seed):
         b = build_coq(plugin, timeout=int(os.environ.get('VERIF_COQ_TIMEOUT', '2400')))
         gate = grep_gate()
         exe, exerr = build_driver(plugin)
+        if tier == 'thorough' and b['ok'] and not gate and not os.environ.get('VERIF_NO_COQCHK'):
+            mods = ' '.join('OV.' + t[:-2].replace('/', '.') for t in getattr(plugin, 'THEOREM_FILES', ['Properties/%s.v' % pid]))
+            rc_chk, out_chk = sh('timeout 3000 coqchk -o -silent -Q . OV %s 2>&1' % mods, cwd=COQ, timeout=3100)
+            m_ax = re.search(r'\* Axioms:(.*?)\n\s*\n\* Constants', out_chk, re.S)
+            chk_axioms = [a.strip() for a in (m_ax.group(1) if m_ax else '?').split('\n') if a.strip()]
+            cov['coqchk'] = {'cmd': 'coqchk -o -silent -Q . OV ' + mods, 'exit': rc_chk, 'axioms': chk_axioms,
+                             'type_in_type': 'type-in-type: <none>' in out_chk, 'summary_tail': out_chk[-600:]}
+            bad_ax = [a for a in chk_axioms if a not in ('<none>',) and a.split(' ')[0] not in ALLOWED_AXIOMS_CHK]
+            if rc_chk != 0 or bad_ax:
+                b['ok'] = False
+                b['broken'].append({'file': 'coqchk', 'line': 0, 'statement': None, 'error': 'coqchk exit %d, axioms %s' % (rc_chk, bad_ax)})
     if changed: log('translator: regenerated', ', '.join(changed))
     cov['translator_regenerated'] = [r for r, _ in COMMON_GEN + list(getattr(plugin, 'GEN', []))]
     cov['translator_fallback'] = fallbacks
@@ -510,7 +527,10 @@ def run_check(pid, tier, seed):
     ev['wall_s'] = round(time.time() - t0, 2)
     os.makedirs(os.path.join(ROOT, 'evidence'), exist_ok=True)
     json.dump(ev, open(os.path.join(ROOT, 'evidence', pid + '.json'), 'w'), indent=1, default=repr)
+    seen_v = set()
     for path, suffix in violations:
+        if path in seen_v: continue
+        seen_v.add(path)
         print('VIOLATION property=%s replay=%s%s' % (pid, path, suffix), flush=True)
     log('%s %s: obligations %d/%d, cases %d (model agreed on %d), known findings %s, %.1fs' % (
         pid, tier, cov['discharged'], cov['obligations'], cov['evaluations'], cov['traces_validated_against_impl'], reproduced, ev['wall_s']))
